@@ -424,6 +424,11 @@ func parsePossibilityStageSet(input *input, possi *Possibility) error {
 			return errors.New("Oh no. Reached EOF before StageSet finished")
 		case '>':
 			input.Next()
+			if len(stageSet.Stages) == 0 {
+				/* "<>" restricts nothing and cannot be written
+				 * back, so there is nothing to record */
+				return nil
+			}
 			possi.StageSets = append(possi.StageSets, stageSet)
 			return nil
 		}
